@@ -82,8 +82,66 @@ pub fn run(ctx: &mut Ctx) {
     let scratch = Scratch::new();
     for case in ctx.cases(300, 20_000) {
         let mut rng = ctx.rng(case);
+        if rng.chance(1, 150) {
+            huge_keys_case(ctx, case, &mut rng, &scratch);
+            continue;
+        }
         one(ctx, case, &mut rng, &scratch);
     }
+}
+
+/// Keys of 100..200 KiB (added after seeded change agent-C18-11, which bounds the memory of the head
+/// rebuild by the key bytes it has buffered). The general case handles every key many times over and
+/// cannot afford such keys; this one does the minimum: a few entries with very long keys by two
+/// authors, the head table deleted with plain redb, and after the reopen the heads (timestamp and
+/// key) must be those the live store maintained, and equal to the per-author maximum of the entries.
+fn huge_keys_case(ctx: &mut Ctx, case: u64, rng: &mut Rng, scratch: &Scratch) {
+    let path = scratch.path("mig-huge");
+    let u = Universe::new(rng, 1);
+    let id = u.ns.id();
+    ctx.eval();
+    let live = {
+        let mut store = Store::persistent(&path).expect("create");
+        store.import_namespace(Capability::Write(u.ns.clone())).unwrap();
+        let n = rng.range(3, 6);
+        for i in 0..n {
+            let mut k = vec![*rng.pick(&[b'a', b'h', b'z']); 100_000 + rng.below(100_000)];
+            k.push(i as u8);
+            offer_remote(&mut store, id, &u.entry(i % 2, &k, u.t0 + rng.below(8) as u64, Some(i % 4)));
+            if rng.chance(1, 2) {
+                offer_remote(&mut store, id, &u.entry(rng.below(2), &[b'z', i as u8], u.t0 + rng.below(8) as u64, Some(1)));
+            }
+        }
+        store.flush().unwrap();
+        heads(&mut store, id).expect("heads")
+    };
+    ctx.count("files_with_keys_of_more_than_100_KiB", 1);
+    if let Err(e) = delete_tables(&path, &["latest-by-author-1"]) {
+        ctx.harness_error(format!("deleting the head table failed: {e:?}"));
+        return;
+    }
+    for open in 0..2 {
+        let mut store = match Store::persistent(&path) {
+            Ok(s) => s,
+            Err(e) => {
+                ctx.violation(case, "open-of-older-database-failed", json!({"err": format!("{e:?}"), "keys": "100..200 KiB"}));
+                return;
+            }
+        };
+        let got = heads(&mut store, id).unwrap_or_default();
+        let want_ts: BTreeMap<[u8; 32], u64> = dump(&mut store, id).map(|d| crate::model::Model { map: d }.heads()).unwrap_or_default();
+        let got_ts: BTreeMap<[u8; 32], u64> = got.iter().map(|(a, (t, _))| (*a, *t)).collect();
+        if got_ts != want_ts {
+            ctx.violation(case, "rebuilt-heads-differ-from-entries", json!({"keys": "100..200 KiB", "open": open, "got": got_ts.values().collect::<Vec<_>>(), "want": want_ts.values().collect::<Vec<_>>()}));
+            return;
+        }
+        if got_ts != live.iter().map(|(a, (t, _))| (*a, *t)).collect::<BTreeMap<_, _>>() {
+            ctx.violation(case, "rebuilt-heads-differ-from-the-heads-maintained", json!({"keys": "100..200 KiB", "open": open}));
+            return;
+        }
+    }
+    ctx.nontrivial(h64(format!("huge:{case}:{}", ctx.seed).as_bytes()));
+    let _ = std::fs::remove_file(&path);
 }
 
 fn one(ctx: &mut Ctx, case: u64, rng: &mut Rng, scratch: &Scratch) {
